@@ -1,9 +1,13 @@
 package props
 
 import (
-	"github.com/jotaen/klog/klog/app/cli/report"
 	"fmt"
+	"os"
 	"time"
+
+	"github.com/jotaen/klog/klog/app/cli"
+	"github.com/jotaen/klog/klog/app/cli/report"
+	"github.com/jotaen/klog/klog/app/cli/util"
 
 	"github.com/jotaen/klog/klog"
 	"github.com/jotaen/klog/klog/service/period"
@@ -67,7 +71,8 @@ func init() {
 		Level: "exploration",
 		Rule: "cases are (a) every calendar date of the explored years, each checked for weekday, ISO week, quarter, the week/month/quarter/year period " +
 			"(bounds, containment, previous period, bucket hash) and (b) every pattern string YYYY, YYYY-MM (00-99), YYYY-Qq (0-9), YYYY-Www/YYYY-Ww (0-99) of those years plus malformed shapes; " +
-			"both tiers enumerate all years 0000-9999 (exhaustive: 3 652 425 dates, 2.5 M pattern strings). " +
+			"both tiers enumerate all years 0000-9999 (exhaustive: 3 652 425 dates, 2.5 M pattern strings); " +
+			"(c) bucket keys over the whole calendar, backward walks period by period, and (sampled, not exhaustive) `klog report --fill` for every aggregation over two records whose first date runs through every day of several 4-year windows: the rows must be exactly the consecutive periods from the first to the last date, each once. " +
 			"non-trivial & distinct = a (date) at which at least one of week/month/quarter/year period changes w.r.t. the previous day, or a pattern string that denotes an existing period; counted by hash set",
 		Assumptions: []string{
 			"reference calendar: Hinnant's days-from-civil algorithms in harness/ref/calendar.go, self-checked against Go's time package at start-up",
@@ -98,6 +103,22 @@ func runC15(e *core.Env) {
 			e.Evals(c15BackwardWalks(e))
 		}
 		e.End(i)
+	}
+	// report --fill: every period between two dates gets exactly one row (one case per window and aggregation)
+	wins := []int{2021, 1897, 0, 9995, 2097, 1599}
+	if e.Quick() {
+		wins = []int{2021, []int{1897, 0, 9995, 2097, 1599, 2397, 401}[e.Seed%7]}
+	}
+	for wi, wy := range wins {
+		for ai, agg := range []string{"d", "w", "m", "q", "y"} {
+			i := int64(len(years) + 2 + wi*5 + ai)
+			if !e.Mine(i) {
+				continue
+			}
+			e.Begin(i, []byte(fmt.Sprintf("report --fill walks, window %04d, aggregation %s", wy, agg)))
+			e.Evals(c15FillWalks(e, wy, agg))
+			e.End(i)
+		}
 	}
 	for idx, y := range years {
 		i := int64(idx)
@@ -188,6 +209,97 @@ func c15GlobalBuckets(e *core.Env) int64 {
 			day = until + step
 		}
 		e.Count("global_distinct_"+s.name, int64(len(seen)))
+	}
+	return n
+}
+
+// c15FillWalks: two records, the first on every day of the 4-year window starting at year wy, the second a fixed span
+// later; `klog report --aggregate agg --fill` must list exactly the consecutive periods from the first to the last date
+// (two dates fall into one row exactly when they lie in the same period; a period in between gets its empty row).
+func c15FillWalks(e *core.Env, wy int, agg string) int64 {
+	var n int64
+	span := map[string]int{"d": 45, "w": 150, "m": 430, "q": 520, "y": 1200}[agg]
+	file := e.Dir + "/c15fill.klg"
+	first := ref.DaysFromCivil(wy, 1, 1)
+	bad := 0
+	for d0 := first; d0 < first+1461 && d0 < ref.MaxDay && bad < 3; d0++ {
+		d1 := d0 + span + (d0-first)%3
+		if d1 > ref.MaxDay {
+			d1 = ref.MaxDay
+		}
+		a, b := ref.DateFromDays(d0), ref.DateFromDays(d1)
+		text := a.String() + "\n    1h\n\n" + b.String() + "\n    2h\n"
+		if err := os.WriteFile(file, []byte(text), 0644); err != nil {
+			panic(err)
+		}
+		n++
+		w := map[string]any{"file": text, "command": "klog report --fill --decimal --no-style --aggregate " + agg}
+		res := runRO(e, &cli.Report{AggregateBy: agg, Fill: true, DecimalArgs: util.DecimalArgs{Decimal: true}, WarnArgs: util.WarnArgs{NoWarn: true}, NoStyleArgs: util.NoStyleArgs{NoStyle: true},
+			InputFilesArgs: util.InputFilesArgs{File: files(file)}}, 1, "", "", time.Date(2024, 5, 5, 12, 0, 0, 0, time.UTC))
+		if res.Panic != nil {
+			e.Violation("report-fill-panic: "+res.Panic.Site(), fmt.Sprintf("report --fill -a %s for %s and %s: %s", agg, a, b, res.Panic.Value), w)
+			bad++
+			continue
+		}
+		if res.Err != nil {
+			e.Violation("report-fill-fails", fmt.Sprintf("report --fill -a %s for %s and %s fails: %s", agg, a, b, res.Err.Error()), w)
+			bad++
+			continue
+		}
+		w["output"] = res.Out
+		firstYear := a.Y
+		if agg == "w" {
+			firstYear, _ = ref.ISOWeek(a.Y, a.M, a.D)
+		}
+		rows, _, perr := parseReport(res.Out, agg, false, firstYear)
+		if perr != nil {
+			e.Violation("report-fill-output-malformed", fmt.Sprintf("report --fill -a %s for %s and %s: %s", agg, a, b, perr.Error()), w)
+			bad++
+			continue
+		}
+		var want []reportRow
+		lastID := -1 << 62
+		for dd := d0; dd <= d1; dd++ {
+			k, id := periodKey(agg, ref.DateFromDays(dd))
+			if id == lastID {
+				continue
+			}
+			lastID = id
+			want = append(want, reportRow{key: k})
+		}
+		_, idA := periodKey(agg, a)
+		_, idB := periodKey(agg, b)
+		if idA == idB {
+			want[0].values = []int{180}
+		} else {
+			want[0].values, want[len(want)-1].values = []int{60}, []int{120}
+		}
+		msg := ""
+		for k := 0; k < len(want) || k < len(rows); k++ {
+			switch {
+			case k >= len(rows):
+				msg = fmt.Sprintf("the row of period %s is missing (the report ends after %d rows, %d periods lie between the two dates)", want[k].key, len(rows), len(want))
+			case k >= len(want):
+				msg = fmt.Sprintf("surplus row %s", rows[k].key)
+			case rows[k].key != want[k].key:
+				msg = fmt.Sprintf("row %d is %s where the next period is %s", k+1, rows[k].key, want[k].key)
+			case fmt.Sprint(rows[k].values) != fmt.Sprint(want[k].values):
+				msg = fmt.Sprintf("row %s holds %v, expected %v (minutes)", rows[k].key, rows[k].values, want[k].values)
+			}
+			if msg != "" {
+				break
+			}
+		}
+		if msg != "" {
+			e.Violation("report-fill-rows-are-not-the-consecutive-periods: "+agg, fmt.Sprintf("report --fill -a %s for records on %s and %s: %s", agg, a, b, msg), w)
+			bad++
+			continue
+		}
+		e.Count("fill_walk_reports", 1)
+		e.Count("fill_walk_rows_"+agg, int64(len(rows)))
+		if (d0-first)%50 == 0 {
+			e.Nontrivial(core.Hash64("c15fill", agg, a.String()))
+		}
 	}
 	return n
 }
